@@ -57,7 +57,7 @@ def sem(cmds,st):
             ev=note_on(st,key,ln,qq,vv,tt)
             if st.harm is not None: st.tr[st.cur].tp=st.harm[0]; st.harm[1].append(ev)
             else: t.ev.append(ev)
-        elif k=='raw': out.append(c[1])      # verbatim text of a command that writes non-note events on the current track
+        elif k=='raw': pass      # verbatim text of a command without effect on the sounded notes
         elif k=='noten':
             _,no,L,q,v,tm=c
             qq=t.q if q in (None,0) else q; vv=t.v if (v is None or v<0) else v; tt=t.t if tm is None else tm
@@ -132,7 +132,10 @@ def pr(cmds,sep=" "):
         elif k=='orel': out.append(">" if c[1]>0 else "<")
         elif k=='vrel': out.append(")" if c[1]>0 else "(")
         elif k=='tsync': out.append("TrackSync")
-        elif k=='play': out.append("PLAY(%s)" % ",".join("{%s}" % pr(p) for p in c[1]))
+        elif k=='play':
+            # an empty part is written as an empty argument slot (`PLAY({c},,{e})`), a part holding only ('raw','') as `{}`
+            out.append("PLAY(%s)" % ",".join(("" if (p == [] and len(c[1]) > 1) else "{%s}" % pr(p)) for p in c[1]))
+        elif k=='raw': out.append(c[1])      # verbatim text (a command that writes non-note events on the current track, a second `:` in a loop)
         elif k=='voice': out.append("@%d;"%c[1])
         elif k=='v': out.append("v%d"%c[1])
         elif k=='q': out.append("q%d"%c[1])
@@ -286,7 +289,7 @@ def multitrack_source(rng, malformed=False):
     tb = None
     if rng.random() < 0.5:
         tbv = rng.choice([48, 96, 120, 192, 480, 960, 9600, 32767, rng.randint(48, 32767), 1, 0, 47, -5])
-        kw = rng.choice(["TimeBase", "TIMEBASE", "Timebase", "System.TimeBase"])
+        kw = rng.choice(["TimeBase", "TIMEBASE", "Timebase", "System.TimeBase", "SYSTEM.TimeBase"])
         form = rng.choice(["%s(%d)", "%s=%d", "%s = %d", "%s(%d);"])
         if tbv < 0 and "=" in form: form = "%s(%d)"
         parts.append(form % (kw, tbv))
